@@ -230,6 +230,10 @@ static int rkind;
 static int rstreak;
 static int rsticky;
 uint64_t g_rand_calls;
+uint64_t g_work, g_work_at_try;
+void __sanitizer_cov_trace_pc(void);
+void __sanitizer_cov_trace_pc(void) { if (g_inlib) g_work++; }
+uint64_t g_gen_index;       /* index of the run whose plan is being generated (worlds may use it to walk a domain systematically) */
 
 void simrand_reset(uint64_t seed, int kind)
 {
@@ -296,7 +300,7 @@ static void on_signal(int sig)
 {
     const char *n = sig == SIGSEGV ? "SIGSEGV" : sig == SIGBUS ? "SIGBUS" :
                     sig == SIGFPE ? "SIGFPE" : sig == SIGILL ? "SIGILL" :
-                    sig == SIGABRT ? "SIGABRT" : sig == SIGALRM ? "TIMEOUT" : "SIG";
+                    sig == SIGABRT ? "SIGABRT" : (sig == SIGALRM || sig == SIGVTALRM) ? "TIMEOUT" : "SIG";
     crash_line(n);
     _exit(70);
 }
@@ -327,7 +331,7 @@ static void install_handlers(void)
     static char altstack[1 << 16];
     stack_t ss;
     struct sigaction sa;
-    int sigs[] = { SIGSEGV, SIGBUS, SIGFPE, SIGILL, SIGABRT, SIGALRM };
+    int sigs[] = { SIGSEGV, SIGBUS, SIGFPE, SIGILL, SIGABRT, SIGALRM, SIGVTALRM };
     size_t i;
     ss.ss_sp = altstack; ss.ss_size = sizeof altstack; ss.ss_flags = 0;
     sigaltstack(&ss, NULL);
@@ -354,11 +358,18 @@ static void install_handlers(void)
 
 static void arm_watchdog(int seconds)
 {
+    /* the budget is CPU time of this process (a verdict must not depend on how busy the machine is: nothing in a
+     * run ever blocks, so a run that does not terminate burns CPU); wall-clock time is only a distant backstop */
     struct itimerval it;
     memset(&it, 0, sizeof it);
-    it.it_value.tv_sec = seconds;
+    it.it_value.tv_sec = seconds * 3;
+    setitimer(ITIMER_VIRTUAL, &it, NULL);
+    it.it_value.tv_sec = seconds * 60;
     setitimer(ITIMER_REAL, &it, NULL);
 }
+
+/* worlds with deliberately enormous single runs (2^32 callback invocations) ask for a longer CPU budget */
+void sim_watchdog(int seconds) { arm_watchdog(seconds); }
 
 /* ------------------------------------------------- fault enumeration (C16) */
 
@@ -621,6 +632,7 @@ int main(int argc, char **argv)
         memset(&g_plan, 0, sizeof g_plan);
         snprintf(g_plan.world, sizeof g_plan.world, "%s", w->name);
         g_plan.mode = mode;
+        g_gen_index = (uint64_t)idx;
         w->gen(&r, mode, &g_plan);
         plan_write(stdout, &g_plan);
         return 0;
@@ -652,6 +664,7 @@ int main(int argc, char **argv)
             snprintf(g_plan.world, sizeof g_plan.world, "%s", w->name);
             g_plan.mode = mode;
             g_run.run_index = i; g_run.world = w; g_run.step = -1;
+            g_gen_index = (uint64_t)i;
             w->gen(&r, mode, &g_plan);
             ph = plan_hash(&g_plan);
             printf("B %lld\n", i);
